@@ -48,38 +48,58 @@ def make_records(tier, seed):
     # runs of backslashes before a quote and at the end of a quoted argument (the MS C runtime rules count them)
     lists += [["\\" * n_ + '"'] for n_ in range(0, 7)] + [["a b" + "\\" * n_] for n_ in range(0, 7)] + [['"' + "\\" * n_ + '" x'] for n_ in range(0, 5)]
     lists += [["a b", "c\\", 'd"e', "", 'x\\"y', "trail space\\"], ["\\\\server\\share\\", 'say "hi"\\'], ["--opt=1", "-x", "file.txt", "a@b.c", "50%", "+1", "a,b", "x:y"]]
+    # long arguments: an unsafe character after a long safe prefix, long runs of quotes / backslashes
+    lists += [["a" * 3000 + "$"], ["'" * 400], ["\\" * 300 + '"'], ["x" * 2000 + " " + "y" * 2000, "z"], ['"' * 250 + "\\" * 250]]
     recs = []
-    for args in lists:
+    for n_l, args in enumerate(lists):
         for kind, fn in (("sh", su.args2sh), ("cmd", su.args2cmd)):
             try:
-                text = fn(args)
+                # the arguments as a list, a tuple, an iterator, dict keys
+                src_ = [args, tuple(args), iter(list(args)), dict.fromkeys(args).keys() if len(set(args)) == len(args) else list(args)][n_l % 4]
+                text = fn(src_)
             except Exception as ex:
                 text = "\x00raised:" + core.exc_name(ex)
             recs.append({"kind": kind, "args": [cps(a) for a in args], "text": cps(text) if isinstance(text, str) else [0]})
-    for args in lists[:: 200]:
+    for n_l, args in enumerate(lists[:: 200] + lists[-120:]):
         for style, kind in (("sh", "sh"), ("cmd", "cmd")):
             try:
-                text = su.escape_shell_args(args, style=style)
+                text = su.escape_shell_args(args, style=style) if n_l % 2 else su.escape_shell_args(args, " ", style)
             except Exception as ex:
                 text = "\x00raised:" + core.exc_name(ex)
             recs.append({"kind": kind, "args": [cps(a) for a in args], "text": cps(text), "via": "escape_shell_args"})
-    # integer lists: every subset of 0..9, given in shuffled order with duplicates; all windows
-    for mask in range(1 << 10):
-        off = (0, 5, 95, 995)[mask % 4]            # runs that cross 9/10, 99/100, 999/1000: several digits, numeric order
-        members = [off + i for i in range(10) if mask >> i & 1]
+    # integer lists: every subset of 0..9 (0 and 1 included), subsets of bands that cross 9/10, 99/100, 999/1000 (several digits,
+    # numeric order), unions of two far-apart bands; given in shuffled order with duplicates; windows in every call form
+    member_sets = [[i for i in range(10) if mask >> i & 1] for mask in range(1 << 10)]
+    for off in (5, 95, 995, 2 * 10 ** 9 - 3):
+        member_sets += [[off + i for i in range(10) if mask >> i & 1] for mask in rng.sample(range(1 << 10), 1024 if thorough else 160)]
+    for _ in range(600 if thorough else 150):
+        a_ = [i for i in range(12) if rng.random() < 0.5]
+        b_ = [rng.choice([40, 250, 1000]) + i for i in range(14) if rng.random() < 0.5]
+        member_sets.append(a_ + b_)
+    for n_ms, members in enumerate(member_sets):
         given = members + [rng.choice(members) for _ in range(rng.randint(0, 2))] if members else []
         rng.shuffle(given)
-        for win in ((off, off + 10), (off + rng.randint(0, 3), off + rng.randint(4, 12)), (off + 2, off + 2), None):
-            # None: the default window - from 0 up to and including the largest member
-            start, end = win if win else (0, (max(members) + 1) if members else 0)
-            if mask % 5 == 0:
+        lo, hi = (min(members), max(members)) if members else (0, 0)
+        wins = [("both", lo, lo + 10), ("both", lo + rng.randint(0, 3), lo + rng.randint(4, 12)), ("both", lo + 2, lo + 2), ("none", 0, 0),
+                [("start-only", rng.randint(0, hi + 2), 0), ("end-only", 0, rng.randint(0, hi + 3)), ("positional", max(0, lo - 3), hi + 4),
+                 ("both", hi + 50, hi + 60), ("both", lo + 6, lo + 2)][n_ms % 5]]
+        if hi > 10 ** 5:
+            # complement_int_list materialises range(range_end): with ten-digit numbers only formatting and parsing are
+            # exercised (an empty window costs nothing)
+            wins = [("both", 0, 0)]
+        for form, start, end in wins:
+            # the effective window of each call form (range_start defaults to 0, range_end to one past the largest member)
+            dflt_end = (hi + 1) if members else 0
+            eff = {"both": (start, end), "positional": (start, end), "none": (0, dflt_end), "start-only": (start, dflt_end), "end-only": (0, end)}[form]
+            if n_ms % 5 == 0:
                 for bad_call in (lambda: su.parse_int_list("1-x,3"), lambda: su.format_int_list([1, "y"]), lambda: su.complement_int_list("2-")):
                     try:
                         bad_call()
                     except Exception:
                         pass
             try:
-                text = su.format_int_list(given)
+                src_ = given if n_ms % 3 else (tuple(given) if n_ms % 2 else (x_ for x_ in given))      # list / tuple / generator
+                text = su.format_int_list(src_)
                 handed = su.parse_int_list(text)
                 parsed = list(handed)
                 # the caller owns the list it was handed: what it does to it must not show in any later call (the same
@@ -87,16 +107,23 @@ def make_records(tier, seed):
                 if isinstance(handed, list):
                     handed.reverse()
                     handed.append(1000000)
-                comp = su.complement_int_list(text, range_start=start, range_end=end) if win else su.complement_int_list(text)
+                comp = {"both": lambda: su.complement_int_list(text, range_start=start, range_end=end),
+                        "positional": lambda: su.complement_int_list(text, start, end),
+                        "none": lambda: su.complement_int_list(text),
+                        "start-only": lambda: su.complement_int_list(text, range_start=start),
+                        "end-only": lambda: su.complement_int_list(text, range_end=end)}[form]()
                 rec = {"kind": "int", "members": members, "given": given, "text": cps(text), "parsed": parsed, "comp": cps(comp),
-                       "start": start, "end": end}
+                       "start": eff[0], "end": eff[1], "form": form}
             except Exception as ex:
-                rec = {"kind": "int", "members": members, "given": given, "text": [0], "parsed": [-1], "comp": [0], "start": start, "end": end,
-                       "raised": core.exc_name(ex)}
+                rec = {"kind": "int", "members": members, "given": given, "text": [0], "parsed": [-1], "comp": [0], "start": eff[0], "end": eff[1],
+                       "raised": core.exc_name(ex), "form": form}
             recs.append(rec)
     # gzip: framing + round trip
     datas = [bytes(p) for n in range(0, 4) for p in itertools.product([0, 1, 65, 255], repeat=n)]
     datas += [b"", b"x" * 65536, bytes(rng.getrandbits(8) for _ in range(5000)), b"ab" * 40000, "héllo wörld".encode()]
+    # incompressible data beyond one stored block, a payload that is itself a gzip member, lengths in between
+    noise = bytes(rng.getrandbits(8) for _ in range(70000))
+    datas += [noise, noise[:65535], noise[:65537], su.gzip_bytes(b"inner member"), b"\x1f\x8b\x08 looks like a header", noise[:37], noise[:300], noise[:4097]]
     # calls the functions must refuse, made in between the recorded ones: a refused call leaves nothing behind that the
     # next valid call could pick up
     refused = [lambda: su.gzip_bytes("text, not bytes"), lambda: su.gzip_bytes(b"abc", level=99), lambda: su.gzip_bytes(None),
@@ -112,8 +139,9 @@ def make_records(tier, seed):
                 except Exception:
                     pass
             try:
-                z = su.gzip_bytes(data, level=level)
-                back = su.gunzip_bytes(z)
+                # level by keyword, positionally, or left to the default (only the round trip is promised then)
+                z = su.gzip_bytes(data, level=level) if ncall % 3 else su.gzip_bytes(data, level) if ncall % 2 else su.gzip_bytes(data)
+                back = su.gunzip_bytes(z) if ncall % 4 else su.gunzip_bytes(bytearray(z))
                 rec = {"kind": "gz", "n": len(data) % (1 << 32), "head": list(z[:3]), "isize": struct.unpack("<I", z[-4:])[0],
                        "same": back == data and gzip.decompress(z) == data, "level": level}
             except Exception as ex:
